@@ -377,6 +377,9 @@ func (w *World) start(n *node, applied uint64, first bool) {
 		MaxUncommittedEntriesSize: n.cfg.MaxUncommitted, AsyncStorageWrites: n.cfg.Async,
 		PreVote: n.cfg.PreVote, CheckQuorum: n.cfg.CheckQuorum, StepDownOnRemoval: n.cfg.StepDownOnRemoval,
 		DisableProposalForwarding: n.cfg.DisableFwd, Applied: applied, Logger: w.lg}
+	if w.Cfg.Lease && n.cfg.CheckQuorum {
+		c.ReadOnlyOption = raft.ReadOnlyLeaseBased
+	}
 	var rn *raft.RawNode
 	w.guard(n, "newrawnode", func() {
 		var err error
